@@ -265,6 +265,15 @@ def pow2(n):
     return 2 ** int(n)
 
 
+def pow2_unfold(n):
+    """instantiate the defining axiom at n: n >= 1 => pow2(n) == 2 * pow2(n - 1)  (an instance of an
+    axiom already assumed; the solvers' triggers do not find it when the term is written pow2(n))"""
+    if isinstance(n, SymBase) and HAVE_Z3 and sym.have_ctx():
+        f = _pow2_fn()
+        pow2_term(n.t)
+        sym.ctx().assume(z3.Implies(n.t >= 1, f(n.t) == 2 * f(n.t - 1)), fact=True)
+
+
 # ---- slices: CPython semantics ----------------------------------------------------------------
 
 
